@@ -21,7 +21,7 @@ func C10(r *core.Report) {
 		"R2 identity chain in NewEpochFromConfig - for every index opened there, every path from the open to the successful return passes a comparison of the index's epoch with the configured epoch and a comparison of its root CID with the running root CID (or the assignment that starts the chain), each with an error branch, unless the path goes through the explicit old-format test of that index; the Filecoin root is compared with the chain; the function-level root variable must be the one assigned and compared (a shadowed copy does not count); " +
 		"R3 the CID of the section read from the CAR is compared with the wanted CID (shared with C03: parseNodeFromSection); R4 metadata key agreement - the keys written by setDefaultMetadata are exactly the keys read by getDefaultMetadata, with inverse codecs, and the loader reads sig-exists / gsfa metadata under the keys their writers use. " +
 		"R5 the gsfa version gate - NewEpochFromConfig skips the gsfa identity comparison for manifest versions below a threshold, so NewManifest must install only headers whose version equals the current constant (literal with _Version, or a header that passed the equality test), and that constant lies at or above the threshold. " +
-		"Not decided: that stored values survive the round trip byte for byte; files swapped between two roles with identical kind/epoch/root."
+		"R7 each identity value written into an index header is the corresponding field of the Metadata argument passed through an encoder only. Not decided: that stored values survive the round trip byte for byte; files swapped between two roles with identical kind/epoch/root."
 	c10KindAssertion(r)
 	checkInvariantTable(r, "C10.R1", "c10_invariants.json")
 	c10IdentityChain(r)
@@ -30,6 +30,8 @@ func C10(r *core.Report) {
 	c10AssertGates(r)
 	r.Floor("C10.R6", 7)
 	r.Floor("C10.R5", 3)
+	c10MetadataWrittenAsGiven(r)
+	r.Floor("C10.R7", 4)
 	r.Floor("C10.R1", 5)
 	r.Floor("C10.R2", 5)
 	r.Floor("C10.R4", 4)
